@@ -57,6 +57,38 @@ type Term struct {
 	Val  uint64 // constant value (masked), or parameter for zext/sext/extract
 	Name string // variables
 	A    [3]*Term
+	lo, hi uint64 // unsigned value range (bit-vectors only), a sound over-approximation
+	H      uint64 // structural hash: orders commutative operands independently of creation order
+}
+
+func mix(h, x uint64) uint64 {
+	h ^= x + 0x9e3779b97f4a7c15 + (h << 6) + (h >> 2)
+	h *= 0xff51afd7ed558ccd
+	h ^= h >> 33
+	return h
+}
+
+func structHash(t *Term) uint64 {
+	h := mix(uint64(t.Op)<<8|uint64(t.W), t.Val)
+	for i := 0; i < len(t.Name); i++ {
+		h = mix(h, uint64(t.Name[i]))
+	}
+	for _, a := range t.A {
+		if a != nil {
+			h = mix(h, a.H)
+		} else {
+			h = mix(h, 1)
+		}
+	}
+	return h
+}
+
+// before reports whether a precedes b in the canonical operand order.
+func before(a, b *Term) bool {
+	if a.H != b.H {
+		return a.H < b.H
+	}
+	return a.ID < b.ID
 }
 
 type termKey struct {
@@ -109,8 +141,76 @@ func (ts *TermStore) mk(op Op, w uint8, val uint64, name string, a, b, c *Term) 
 	}
 	t := &Term{ID: ts.nextID, Op: op, W: w, Val: val, Name: name, A: [3]*Term{a, b, c}}
 	ts.nextID++
+	t.H = structHash(t)
+	if w != 0 {
+		t.lo, t.hi = rangeOf(t)
+	}
 	ts.tab[k] = t
 	return t
+}
+
+// VarBounded is a variable known (by an assumption the caller also puts into
+// the path condition) to be <= hi as an unsigned number.
+func (ts *TermStore) VarBounded(name string, w uint8, hi uint64) *Term {
+	// the bound is part of the hash-consing key (Val is otherwise unused for
+	// variables): the same name with another bound is another term
+	t := ts.mk(OpVar, w, hi, name, nil, nil, nil)
+	t.hi = min(hi, mask(w))
+	return t
+}
+
+func rangeOf(t *Term) (uint64, uint64) {
+	m := mask(t.W)
+	a, b := t.A[0], t.A[1]
+	switch t.Op {
+	case OpConst:
+		return t.Val, t.Val
+	case OpZext:
+		return a.lo, a.hi
+	case OpSext:
+		if a.hi < uint64(1)<<(a.W-1) {
+			return a.lo, a.hi
+		}
+	case OpExtract:
+		if t.Val == 0 && a.hi <= m {
+			return a.lo, a.hi
+		}
+	case OpBAnd:
+		return 0, min(a.hi, b.hi)
+	case OpBOr, OpBXor:
+		h := max(a.hi, b.hi)
+		n := bits.Len64(h)
+		if n >= 64 {
+			return 0, m
+		}
+		return 0, min(m, (uint64(1)<<n)-1)
+	case OpLshr:
+		if b.Op == OpConst && b.Val < 64 {
+			return a.lo >> b.Val, a.hi >> b.Val
+		}
+		return 0, a.hi
+	case OpShl:
+		if b.Op == OpConst && b.Val < 64 && bits.Len64(a.hi)+int(b.Val) <= int(t.W) {
+			return a.lo << b.Val, a.hi << b.Val
+		}
+	case OpURem:
+		if b.lo > 0 {
+			return 0, min(a.hi, b.hi-1)
+		}
+		return 0, a.hi
+	case OpUDiv:
+		if b.lo > 0 {
+			return a.lo / b.hi, a.hi / b.lo
+		}
+	case OpAdd:
+		if s := a.hi + b.hi; s >= a.hi && s <= m {
+			return a.lo + b.lo, s
+		}
+	case OpIte:
+		x, y := t.A[1], t.A[2]
+		return min(x.lo, y.lo), max(x.hi, y.hi)
+	}
+	return 0, m
 }
 
 func mask(w uint8) uint64 {
@@ -186,7 +286,7 @@ func (ts *TermStore) And(a, b *Term) *Term {
 	if (a.Op == OpNot && a.A[0] == b) || (b.Op == OpNot && b.A[0] == a) {
 		return ts.ff
 	}
-	if a.ID > b.ID {
+	if before(b, a) {
 		a, b = b, a
 	}
 	return ts.mk(OpAnd, 0, 0, "", a, b, nil)
@@ -208,7 +308,7 @@ func (ts *TermStore) Or(a, b *Term) *Term {
 	if (a.Op == OpNot && a.A[0] == b) || (b.Op == OpNot && b.A[0] == a) {
 		return ts.tt
 	}
-	if a.ID > b.ID {
+	if before(b, a) {
 		a, b = b, a
 	}
 	return ts.mk(OpOr, 0, 0, "", a, b, nil)
@@ -299,6 +399,9 @@ func (ts *TermStore) Eq(a, b *Term) *Term {
 	if a.Op == OpConst && b.Op == OpConst {
 		return ts.Bool(a.Val == b.Val)
 	}
+	if a.W != 0 && (a.hi < b.lo || b.hi < a.lo) {
+		return ts.ff
+	}
 	if a.W == 0 {
 		// bool equality
 		if a.Op == OpConst {
@@ -332,7 +435,7 @@ func (ts *TermStore) Eq(a, b *Term) *Term {
 			return ts.Eq(x, ts.BV(x.W, b.Val))
 		}
 	}
-	if a.ID > b.ID {
+	if before(b, a) {
 		a, b = b, a
 	}
 	return ts.mk(OpEq, 0, 0, "", a, b, nil)
@@ -356,6 +459,44 @@ func (ts *TermStore) cmp(op Op, a, b *Term) *Term {
 	}
 	if a == b {
 		return ts.Bool(op == OpUle || op == OpSle)
+	}
+	{
+		uop := op
+		half := uint64(1) << (a.W - 1)
+		if (op == OpSlt || op == OpSle) && a.hi < half && b.hi < half {
+			if op == OpSlt {
+				uop = OpUlt
+			} else {
+				uop = OpUle
+			}
+		}
+		if uop != op {
+			return ts.cmp(uop, a, b)
+		}
+		switch uop {
+		case OpUlt:
+			if a.hi < b.lo {
+				return ts.tt
+			}
+			if a.lo >= b.hi {
+				return ts.ff
+			}
+		case OpUle:
+			if a.hi <= b.lo {
+				return ts.tt
+			}
+			if a.lo > b.hi {
+				return ts.ff
+			}
+		}
+		// 0 <u x  and  1 <=u x  are  x != 0
+		if (uop == OpUlt && a.Op == OpConst && a.Val == 0) || (uop == OpUle && a.Op == OpConst && a.Val == 1) {
+			return ts.Not(ts.Eq(b, ts.BV(b.W, 0)))
+		}
+		// x <u 1  and  x <=u 0  are  x == 0
+		if (uop == OpUlt && b.Op == OpConst && b.Val == 1) || (uop == OpUle && b.Op == OpConst && b.Val == 0) {
+			return ts.Eq(a, ts.BV(a.W, 0))
+		}
 	}
 	if b.Op == OpConst {
 		bud := 16
